@@ -34,6 +34,7 @@ func c07Compile(c *Ctx) {
 	}
 	c07PairCorrespondence(c, n)
 	c07Streams(c)
+	c07Pipelines(c)
 	c07MutationOracle(c)
 }
 
@@ -193,6 +194,7 @@ type c07Gen struct {
 	nestedRef   bool // a reference was put inside an untyped map literal
 	shorthand   bool // `x = STAGE` with a stage that has an unnamed default output
 	sameBaseRef bool // a reference of the same base type but different nesting was chosen
+	noBogus     bool // never produce references to things that do not exist (pipeline stream, clean mode)
 }
 
 var c07Keys = []string{"a", "b", "k1", "x y", "a/b", "..", "z"}
@@ -232,7 +234,7 @@ func (g *c07Gen) ref(t *c17Ty) *c07Exp {
 			return sameBase[g.rng.Intn(len(sameBase))].e
 		}
 	}
-	if g.rng.Intn(3) == 0 {
+	if !g.noBogus && g.rng.Intn(3) == 0 {
 		// non-existent call / output / field / input
 		switch g.rng.Intn(4) {
 		case 0:
